@@ -169,10 +169,16 @@ def shrink_disagreement(d):
         except Exception:
             return False
         return coarse(io[-1]) != coarse(mo[-1]) and io[-1] != "bad-op" and mo[-1] != "bad-op"
+    if disagrees([last]):
+        return [last]            # a stateless operation: the single line is the whole replay
     if not disagrees(lines):
         return lines
+    # keep the definitions (groups / parameter sets), try dropping everything else in large steps first
+    defs = [l for l in lines[:-1] if l.split(" ", 1)[0] in ("group", "params")]
+    if disagrees(defs + [last]):
+        lines = defs + [last]
     i = 0
-    budget = 60
+    budget = 40
     while i < len(lines) - 1 and budget > 0:
         cand = lines[:i] + lines[i + 1:]
         budget -= 1
